@@ -250,7 +250,24 @@ def rows_of(obj, naxes):
     return obj.array
 
 
-MCLASSES = ["projective", "projective", "affine", "shear", "unimodular", "squeeze", "isometry", "origin_fixing"]
+MCLASSES = ["projective", "projective", "affine", "shear", "unimodular", "squeeze", "isometry", "origin_fixing", "unit_columns"]
+
+
+def _unit_vectors(n, bound):
+    """rational unit vectors v / |v| for the integer vectors v with entries up to `bound` and an integer norm (Pythagorean tuples)"""
+    from itertools import product as _product
+    from math import isqrt
+
+    out = []
+    for v in _product(range(-bound, bound + 1), repeat=n):
+        q = sum(x * x for x in v)
+        r = isqrt(q)
+        if q and r * r == q and sum(1 for x in v if x) >= 2 and v > tuple(-x for x in v):
+            out.append((v, r))
+    return out
+
+
+UNITVECS = {2: _unit_vectors(2, 15), 3: _unit_vectors(3, 6), 4: _unit_vectors(4, 3), 5: _unit_vectors(5, 2)}
 
 
 def class_matrix(v, n, mclass="projective", off=0):
@@ -300,9 +317,15 @@ def class_matrix(v, n, mclass="projective", off=0):
         m[-1, :k] = [g(20 + i) % 5 - 2 for i in range(k)]
         if not np.any(m[-1, :k]):
             m[-1, 0] = 1
+    elif mclass == "unit_columns":
+        # the map of the square lattice onto a lattice spanned by rational unit vectors (3/5, 4/5), (2/7, 3/7, 6/7), ...: every column of
+        # the matrix has length 1, but the columns are not orthogonal in general (a test of the column lengths takes it for a rotation)
+        for j in range(k):
+            vec, r = UNITVECS[k][(g(j) * 7 + g(j + 5)) % len(UNITVECS[k])]
+            m[:k, j] = [x / r for x in vec]
     else:
         raise KeyError(mclass)
-    if X.det([[Fraction(x).limit_denominator(16) for x in r] for r in m]) == 0:
+    if X.det([[Fraction(x).limit_denominator(1000) for x in r] for r in m]) == 0:
         raise Skip("singular")
     return m
 
